@@ -19,6 +19,7 @@ use crate::compiler::comptypes::{
 use crate::compiler::frontend::frontend;
 use crate::compiler::optimize::get_optimizer;
 use crate::compiler::runtypes::RunFailure;
+use crate::compiler::prims::name_for_opcode;
 use crate::compiler::sexp::SExp;
 use crate::compiler::srcloc::Srcloc;
 use crate::compiler::stackvisit::{HasDepthLimit, VisitedMarker};
@@ -1606,26 +1607,8 @@ impl<'info> Evaluator {
         self.run_prim(allocator, call_loc, compiled, args)
     }
 
-    // An integer head is an opcode.  Its byte spelling serves as its name
-    // unless that spelling names a different primitive (61, %, is spelled
-    // "=" and 62, keccak256, is spelled ">"): then use the opcode's own name.
     fn opcode_name(&self, opcode: &Number) -> Vec<u8> {
-        let spelled = u8_from_number(opcode.clone());
-        let is_opcode =
-            |p: &Rc<SExp>| matches!(p.borrow(), SExp::Integer(_, n) if n == opcode);
-        match self.prims.get(&spelled) {
-            Some(p) if !is_opcode(p) => {
-                let mut names: Vec<&Vec<u8>> = self
-                    .prims
-                    .iter()
-                    .filter(|(_, p)| is_opcode(p))
-                    .map(|(name, _)| name)
-                    .collect();
-                names.sort();
-                names.first().map(|n| (*n).clone()).unwrap_or(spelled)
-            }
-            _ => spelled,
-        }
+        name_for_opcode(&self.prims, opcode)
     }
 
     fn lookup_prim(&self, l: Srcloc, name: &[u8]) -> Option<Rc<SExp>> {
